@@ -838,14 +838,20 @@ class C13(Engine):
         return gen(rng, tier)
 
     def stable_digest(self, res):
-        # Ruler.__compile__ iterates a set of chain names: under another PYTHONHASHSEED the same step number falls on
-        # another line of that function.  Everything else (steps, threads, results) must still agree.
-        import re
+        # The chain compilation iterates a set of chain names: under another PYTHONHASHSEED the same step number falls on
+        # another line of whatever function does that.  The digest compared under ANOTHER hash seed therefore carries no
+        # source locations (and no function names - a refactoring may rename them): step numbers, threads, per-thread step
+        # counts and results must still agree.
         from ..core import digest
         if any(e and e[0] == "hash_order_dependent_schedule" for e in res.events):
             keep = [e for e in res.events if e and e[0] in ("results", "aged")]
             return digest({"events": keep, "violation": res.violation["cls"] if res.violation else None})
-        ev = re.sub(r"ruler\.py:__compile__:\d+", "ruler.py:__compile__:*", __import__("json").dumps(res.events))
+        ev = []
+        for e in res.events:
+            if e and e[0] == "fired":
+                ev.append(["fired", [[f[0], f[1], f[2]] for f in e[1]]] + list(e[2:]))
+            else:
+                ev.append(e)
         return digest({"events": ev, "violation": res.violation["cls"] if res.violation else None})
 
     def execute(self, rec):
